@@ -369,7 +369,93 @@ def structured(rnd, nr, nc, kind="small", style=None):
     return m
 
 
+def knife(rnd):
+    """LPs whose status hinges on a quantity far below double precision: a `knife` gadget (infeasible by eps, a single feasible
+    point, or feasible by eps; eps = 2^-k or lost in the rounding of 2^53-sized data) embedded in a small planted LP, with the
+    gadget's columns moved to random positions (often first).  Decides between OPTIMAL and INFEASIBLE only in exact arithmetic."""
+    m = planted_optimal(rnd, rnd.randint(0, 3), rnd.randint(0, 3), "small") if rnd.random() < 0.7 else LP("knife", rnd.choice([MIN, MAX]))
+    m.name = "knife"
+    sgn = rnd.choice([1, 1, 0, -1])            # 1: infeasible by eps, 0: exactly one point along the gadget, -1: feasible by eps
+    style = rnd.choice(["bound", "bound", "sum", "big", "chain"])
+    eps = F(1, 2 ** rnd.choice([20, 28, 30, 31, 35, 40, 52, 60, 90])) * sgn
+    new_cols, new_rows = [], []
+    if style == "bound":
+        # x_j <= lo_j - eps - sum a_k (x_k - lo_k)  with a_k >= 0, x_k >= lo_k
+        lo = rnd_num(rnd, "int")
+        xj = Col(None, rnd_num(rnd, "int"), lo, rnd.choice([INF, lo + 5]))
+        others = [Col(None, rnd_num(rnd, "int"), rnd_num(rnd, "int"), INF) for _ in range(rnd.randint(0, 2))]
+        coefs = [F(rnd.randint(1, 4)) for _ in others]
+        r = Row(None, rnd.choice("LE") if sgn >= 0 else "L", lo - eps + sum(a * c.lo for a, c in zip(coefs, others)), 0)
+        if r.sense == "E" and sgn != 0:
+            r.sense = "L"
+        r.coef[xj] = F(1)
+        for a_, c in zip(coefs, others):
+            r.coef[c] = a_
+        if rnd.random() < 0.5:
+            # the same gadget from above: x_j >= up_j + eps ...
+            up = lo + rnd.randint(0, 6)
+            xj.lo, xj.up = rnd.choice([NINF, lo - 3]), up
+            r.sense = "G"
+            for c in others:
+                c.lo, c.up = NINF, c.lo
+            r.rhs = up + eps + sum(a * c.up for a, c in zip(coefs, others))
+        new_cols, new_rows = [xj] + others, [r]
+    elif style == "sum":
+        # x - y >= b, x <= u, y >= v with u - v = b - eps
+        b_, v = rnd_num(rnd, "int"), rnd_num(rnd, "int")
+        u = b_ + v - eps
+        x = Col(None, rnd_num(rnd, "int"), rnd.choice([NINF, u - 7]), u)
+        y = Col(None, rnd_num(rnd, "int"), v, rnd.choice([INF, v, v + 3]))
+        r = Row(None, "G", b_, 0)
+        r.coef[x], r.coef[y] = F(1), F(-1)
+        if rnd.random() < 0.4:
+            r.sense, r.range = "R", F(rnd.randint(0, 5))
+        new_cols, new_rows = [x, y], [r]
+    elif style == "big":
+        # data that are not representable as doubles: x - y >= N, x <= N + d1, y = d2 (N = 2^53 .. 2^62)
+        N = F(2 ** rnd.choice([53, 54, 60, 62]))
+        d2 = F(rnd.randint(1, 3))
+        d1 = d2 - sgn * rnd.choice([1, 1, 2])
+        x = Col(None, rnd_num(rnd, "int"), rnd.choice([NINF, F(0)]), N + d1)
+        y = Col(None, rnd_num(rnd, "int"), d2, rnd.choice([d2, INF]))
+        r = Row(None, rnd.choice("GGR"), N, 0)
+        if r.sense == "R":
+            r.range = F(rnd.randint(0, 4))
+        r.coef[x], r.coef[y] = F(1), F(-1)
+        if rnd.random() < 0.3:
+            # mirrored as an L row
+            r.sense, r.range, r.rhs = "L", 0, -N
+            r.coef[x], r.coef[y] = F(-1), F(1)
+        new_cols, new_rows = [x, y], [r]
+    else:
+        # chain of equalities x1 = x0 + d, x2 = x1 + d ... with x0 >= 0 and x_last <= n*d - eps
+        n = rnd.randint(2, 4)
+        d = rnd_num(rnd, "int") or F(1)
+        xs = [Col(None, rnd_num(rnd, "int") if i in (0, n) else F(0), NINF, INF) for i in range(n + 1)]
+        xs[0].lo = F(0)
+        xs[n].up = n * d - eps
+        for i in range(n):
+            r = Row(None, "E", d, 0)
+            r.coef[xs[i + 1]], r.coef[xs[i]] = F(1), F(-1)
+            new_rows.append(r)
+        new_cols = xs
+    front = rnd.random() < 0.6
+    m.cols = (new_cols + m.cols) if front else (m.cols + new_cols)
+    if not front and rnd.random() < 0.5:
+        rnd.shuffle(m.cols)
+    m.rows += new_rows
+    rnd.shuffle(m.rows)
+    for c in m.cols:
+        c.name = None
+    for r in m.rows:
+        r.name = None
+    m.truth = None
+    return _names(m)
+
+
 def family(rnd, name):
+    if name == "knife":
+        return knife(rnd)
     if name == "small-rand":
         return small_rand(rnd)
     if name == "small-int":
